@@ -126,6 +126,9 @@ def step (st : St) (t : List String) : St × String :=
     | some l =>
       let status := hostCallStatus st.s l
       reply { st with s := HostOp.apply st.s (.callv l) } status
+  -- a file the engine may open by name later; the machine has one program only and starts of labels in
+  -- other files are rendered from out-of-range labels (tools/vlib/schedgen.py `badstart`)
+  | ["source", _name, _hex] => reply st "ok"
   | ["save"] => reply { st with saved := some (save st.s) } "ok"
   | ["load"] =>
     match st.saved with
